@@ -16,6 +16,7 @@ package vfs
 //@   modifies nothing
 //@ func (FS).Remove
 //@   trusted
+//@   ghost unlinkedWhileUnlocked = unlinkedWhileUnlocked || !flockHeld
 //@   modifies nothing
 //@ func (FS).RemoveAll
 //@   trusted
@@ -31,4 +32,29 @@ package vfs
 //@   modifies nothing
 //@ func (FS).Stat
 //@   trusted
+//@   modifies nothing
+
+// C33: advisory lock discipline. flockHeld tracks whether this process holds the flock
+// on the directory's LOCK file; unlinkedWhileUnlocked records a path removal performed
+// while the lock was not held (the window in which a second process can lock the old
+// inode while a third one creates and locks a new LOCK file).
+//@ ghost var flockHeld bool
+//@ ghost var unlinkedWhileUnlocked bool
+
+//@ func syscall::Flock
+//@   trusted
+//@   ghost flockHeld = (err == nil ? (how & 8) == 0 : flockHeld)
+//@   modifies nothing
+
+//@ func FileFD
+//@   trusted
+//@   tag ghost-pure
+//@   modifies nothing
+//@ func Ensure
+//@   trusted
+//@   tag ghost-pure
+//@   modifies nothing
+//@ func (File).Close
+//@   trusted
+//@   tag ghost-pure
 //@   modifies nothing
